@@ -10,7 +10,8 @@ E2 = "E2 explicit-state search over API histories on real objects (replay-built 
 E3 = "E3 preemption-bounded controlled scheduler + free-running -race pass"
 
 PROMOTED = {"C03","C04","C05","C10","C12","C14","C16","C17","C18"}
-SCALARARG = {"C02","C03","C06","C18"}
+SCALARARG = {"C02","C03","C06","C14","C15","C17","C18"}
+SPECIALDATA = {"C02","C04","C06","C07","C08","C12","C13","C14","C15","C16","C20"}
 SWEPT = {"C01","C02","C03","C04","C05","C06","C07","C11","C12","C13","C14","C15","C16","C17","C19"}
 
 CHECKS = {
@@ -84,8 +85,8 @@ CHECKS = {
    note="Known finding KF-1 for W/B gradients with batch>1. Bounds: dimensions <=3 (4)."),
  "C20": dict(engine="E3", ref="§5 C20",
    technique="stateless model checking of the real code under a hand-written cooperative scheduler: exhaustive enumeration of all thread interleavings at hooked points up to a preemption bound (iterated 0,1,2[,3]) for every pair of thread bodies (library sync/atomic operations and goroutines are intercepted through a build-time overlay shim: blocked threads are disabled, deadlock = no enabled thread), oracle = agreement with the sequential run + unchanged shared state + no deadlock; plus a separate free-running pass under the Go race detector",
-   text="For every pair (and selected triples) of 17 thread bodies that cover forward programs, layer/activation/loss evaluation, graph construction on shared tracked parameters, private build-and-back-propagate graphs sharing only untracked tensors and random constructors, every schedule up to the completed preemption bound is executed deterministically on the real library; every thread must obtain exactly its sequential result and no shared tensor's private state may change. Because cooperative hand-offs hide unsynchronised accesses from the race detector, the same bodies also run free on real goroutines in a -race build.",
-   note="Bounds: 2-3 goroutines, <=4 calls per body, 2x2 tensors, preemption bound 2 (3) where the schedule count fits the budget, at least 1. Scheduling points only at hooked sites (sequential consistency between them); the race pass covers accesses between points. Library locks/atomics/wait groups/goroutines become scheduling points through the overlay shim; channel operations are not intercepted (a scenario blocking in one is decided on free goroutines or reported as not explorable). Not reached: all numbers of goroutines."),
+   text="For every pair (and selected triples) of 18 thread bodies that cover forward programs, layer/activation/loss evaluation, graph construction on shared tracked parameters, private build-and-back-propagate graphs sharing only untracked tensors and random constructors, every schedule up to the completed preemption bound is executed deterministically on the real library; every thread must obtain exactly its sequential result and no shared tensor's private state may change. Because cooperative hand-offs hide unsynchronised accesses from the race detector, the same bodies also run free on real goroutines in a -race build.",
+   note="Bounds: 2-3 goroutines, <=4 calls per body, 2x2 tensors, preemption bound 2 (3) where the schedule count fits the budget, at least 1. Scheduling points only at hooked sites (sequential consistency between them); the race pass covers accesses between points. Library locks/atomics/wait groups/goroutines become scheduling points through the overlay shim; channel operations are not intercepted: if the library's current source contains any, no schedule is enumerated at all - every scenario only has to finish on free-running goroutines, the run reports exhaustive:false, and the free-running -race pass decides (DESIGN 9.11). Not reached: all numbers of goroutines."),
  "C10": dict(engine="E2", ref="§5 C10",
    technique="exhaustive enumeration of (operation configuration) write-set inspections through a private-state hook, and differential exploration of every single-element mutation of every caller-visible slice at every one of three moments of a call/op/back-propagate history, compared with the unmutated twin",
    text="Every public operation configuration of a small shape set and every component is run with a deep before/after inspection of all operands (elements as actually nested, dims, flags, gradient identity/value, edges) across the call, further use of the result and BackPropagate; and for every slice that crosses the API (passed in or handed out) every element is overwritten by every alternative value at each of three later moments, and all subsequent observations must equal those of the untouched twin.",
@@ -112,6 +113,8 @@ def main():
             note += " Sweeps: one long dimension at a time, medium pairs/triples, code-derived sizes; not every shape."
         if pid in PROMOTED:
             note += " The quick command runs the thorough bounds of this property (they take under about half a minute); the thorough command adds the deep shape set (sizes up to 4/5/8 in ranks <= 4/3/2) where the check enumerates the standard shape set (DESIGN 9.11)."
+        if pid in SPECIALDATA:
+            tech += "; operand DATA also from a list of special tensors (all zeros, all ones, zero-sum rows, interleaved zero rows, one operand above the other, values closer than the equality tolerance, all-zero upstream gradients, rearranged multisets on one component object) that a data-dependent shortcut would single out (DESIGN 9.11)"
         if pid in SCALARARG:
             tech += "; scalar arguments (factors, exponents, constants, distribution parameters) also from a list of values that no type narrower than float64 holds (DESIGN 9.11)"
         checks.append({
